@@ -13,6 +13,7 @@ starts with its own `(import …)`). Only property theorems live here; helpers a
 `RuschmProofs/FrontLemmas.lean`, spec-side definitions in `RuschmSpec/Front.lean`.
 -/
 import RuschmProofs.FrontLemmas
+import RuschmProofs.UnlocFront
 import RuschmProofs.C06
 
 namespace Ruschm.C17
@@ -223,13 +224,55 @@ theorem crlf_irrelevant (fuel : Nat) (ts : List Token) (l : List (List Char))
   have hv := validLayout_crlf ts hs l h
   exact ⟨hv, (file_text_layout fuel ts _ _ hs h hv (sameCursor_crlf ts l h)).2.2.symm⟩
 
+/-- THE RUN DEPENDS ON THE TOKENS ONLY, except for the LINE:COL of the diagnostic. Two texts with the
+same token sequence (`toksOf`: the tokens the lexer produces, and whether it ends in an error),
+evaluated through the library interface on the same interpreter state, give the same outcome up
+to source locations — the same value (identical but for the positions recorded inside the code of
+procedures) or the same error KIND — and leave the interpreter in the same state up to such
+positions, with the same output. This is location-parametricity of the whole pipeline (reader,
+macro expander, transformer, evaluator, library loader: `RuschmProofs/Unloc*.lean`). -/
+theorem outcome_depends_on_tokens_only (fuel : Nat) (st : State) (t₁ t₂ : List Char)
+    (ht : toksOf t₁ = toksOf t₂) :
+    outcomeUnloc (evalText fuel st t₁).1 = outcomeUnloc (evalText fuel st t₂).1 ∧
+    (evalText fuel st t₁).2.unloc = (evalText fuel st t₂).2.unloc ∧
+    (evalText fuel st t₁).2.store.out = (evalText fuel st t₂).2.store.out := by
+  obtain ⟨h1, h2⟩ := IU_eq (evalText_sameTokens fuel st st t₁ t₂ ht rfl)
+  exact ⟨outcomeUnloc_eq h1, h2, unloc_out_eq h2⟩
+
+/-- … hence for `ruschm FILE`: same tokens, same standard output, same exit status, same error
+kind; a diagnostic in one run iff in the other (its LINE:COL is where the offending token stands
+in each text). -/
+theorem same_tokens_same_run (fuel : Nat) (s₁ s₂ : String) (ht : toksOf s₁.toList = toksOf s₂.toList) :
+    (cli fuel (some s₁)).stdout = (cli fuel (some s₂)).stdout ∧
+    (cli fuel (some s₁)).exitCode = (cli fuel (some s₂)).exitCode ∧
+    (cli fuel (some s₁)).errKind = (cli fuel (some s₂)).errKind ∧
+    (cli fuel (some s₁)).diag.isSome = (cli fuel (some s₂)).diag.isSome :=
+  cli_sameTokens fuel s₁ s₂ ht
+
+/-- ANY LAYOUT. A program written as a sequence of (supported) tokens under ANY two valid layouts
+— different line breaks, indentation, comments, LF or CRLF, final newline or none — runs alike:
+same output, same exit status, same error kind (corollary of `C06.lex_render`: both texts lex to
+the tokens written). With `file_text_layout`: if moreover the layouts put the tokens at the same
+positions, the diagnostic's LINE:COL is the same too. -/
+theorem layout_irrelevant (fuel : Nat) (ts : List Token) (l₁ l₂ : List (List Char))
+    (hs : ∀ t ∈ ts, Text.SupportedTok t) (h₁ : Text.ValidLayout ts l₁) (h₂ : Text.ValidLayout ts l₂) :
+    (cli fuel (some (String.ofList (Text.interleave ts l₁)))).stdout =
+      (cli fuel (some (String.ofList (Text.interleave ts l₂)))).stdout ∧
+    (cli fuel (some (String.ofList (Text.interleave ts l₁)))).exitCode =
+      (cli fuel (some (String.ofList (Text.interleave ts l₂)))).exitCode ∧
+    (cli fuel (some (String.ofList (Text.interleave ts l₁)))).errKind =
+      (cli fuel (some (String.ofList (Text.interleave ts l₂)))).errKind := by
+  have ht : toksOf (String.ofList (Text.interleave ts l₁)).toList = toksOf (String.ofList (Text.interleave ts l₂)).toList := by
+    simp only [String.toList_ofList]
+    rw [toksOf_interleave ts l₁ hs h₁, toksOf_interleave ts l₂ hs h₂]
+  obtain ⟨a, b, c, _⟩ := same_tokens_same_run fuel _ _ ht
+  exact ⟨a, b, c⟩
+
 /-- THE FORMS DO NOT DEPEND ON THE LAYOUT AT ALL (up to source locations). A sequence of written
 data (`Text.Syn`, supported tokens) under ANY two valid layouts — different line breaks,
 indentation, comments, LF or CRLF, a final newline or none — is read as the same forms, up to the
 locations stored in them, and without a reader error: the data they denote
-(`C06.read_render_many`). What `file_text_layout` adds is that with equal LOCATIONS the whole run
-is equal; that a run does not depend on the locations except in the diagnostic's LINE:COL is not
-proved here (it needs location-parametricity of the transformer and evaluator). -/
+(`C06.read_render_many`). -/
 theorem forms_layout_invariant (xs : List Text.Syn) (hxs : Text.Syn.SupportedL xs) (l₁ l₂ : List (List Char))
     (h₁ : Text.ValidLayout (Text.Syn.toksL xs) l₁) (h₂ : Text.ValidLayout (Text.Syn.toksL xs) l₂) :
     (formsOf (Text.interleave (Text.Syn.toksL xs) l₁)).1.map Datum.strip
@@ -263,6 +306,22 @@ example (fuel : Nat) : cli fuel (some "1 ;c\r\n)\r\n") = cli fuel (some "1 ;c\n)
   rw [e2] at h2
   rw [h1, ← h2]
   rfl
+
+/-- `1 )` on one line or on three, with a comment: same output, status and error kind -/
+example (fuel : Nat) : (cli fuel (some "1 )")).exitCode = (cli fuel (some "1\n;c\n  )\n")).exitCode := by
+  have hs : ∀ t ∈ [Token.prim (.int 1), .rparen], Text.SupportedTok t := by
+    intro t ht
+    simp only [List.mem_cons, List.not_mem_nil, or_false] at ht
+    rcases ht with rfl | rfl
+    · exact (by decide : fitsI32 1 = true)
+    · trivial
+  have h := (layout_irrelevant fuel [.prim (.int 1), .rparen] [[], [' '], []] [[], "\n;c\n  ".toList, ['\n']] hs
+    (by decide) (by decide)).2.1
+  have e1 : String.ofList (Text.interleave [.prim (.int 1), .rparen] [[], [' '], []]) = "1 )" := by decide
+  have e2 : String.ofList (Text.interleave [.prim (.int 1), .rparen] [[], "\n;c\n  ".toList, ['\n']])
+      = "1\n;c\n  )\n" := by decide
+  rw [e1, e2] at h
+  exact h
 
 /-- the file `)`: the reader fails at line 1, column 2 — one syntax diagnostic there, status 255,
 nothing written -/
